@@ -24,7 +24,8 @@
 EXTENDS FourierGain, Json, IOUtils
 
 CONSTANTS Tol,        \* 1  = 1e-6: exact laws, spreads, hard edge
-          SoftTol     \* 100 = 1e-4: One / Zero regions of a soft edge
+          SoftTol,    \* One / Zero regions of a soft edge (x 1e-6)
+          F32Tol      \* residuals of single-precision input maps (x 1e-6)
 
 Traces == ndJsonDeserialize(IOEnv.TRACE_FILE)
 VARIABLES tid, verdict
@@ -64,6 +65,9 @@ JudgeFilt(t) ==
     ELSE IF t.imax > Tol THEN V(FALSE, "C12_RealValuedSameShape", <<>>)
     ELSE IF t.spread > Tol \/ t.pw > Tol \/ t.leak > Tol \/ t.lin > Tol THEN V(FALSE, "C12_LinearDiagonal", <<>>)
     ELSE IF t.shift > Tol THEN V(FALSE, "C12_CommutesWithShifts", <<>>)
+    \* a filter is a function of its arguments: repeating a call after the caller overwrote the returned array gives the
+    \* same map (rep), results handed out earlier are not changed by later calls (keep), arguments are left untouched
+    ELSE IF t.rep > Tol \/ t.keep > Tol \/ t.argmut THEN V(FALSE, "C12_CallsAreIndependent", <<>>)
     ELSE FirstBad(<<
         <<"C12_GainRange", BadRange(t.lp, n) \cup BadRange(t.hp, n) \cup BadRange(t.lp2, n)>>,
         \* the band-pass gain is a difference; it lies in [0,1] when both edges have the same width and rh <= rl
@@ -94,7 +98,22 @@ JudgeRes(t) ==
                              [] t.filt = "highpass" -> BadHardHP(t.tab, n, pl)
                              [] t.filt = "bandpass" -> BadHardBP(t.tab, n, pl, ph)>> >>)
 
-Judge(t) == IF t.kind = "filt" THEN JudgeFilt(t) ELSE JudgeRes(t)
+\* the same integer-valued map handed over as int16 / int32 / float32 / float64: for every input dtype the filters are
+\* linear (F(3a) = 3 F(a)), low-pass + high-pass restores the map, and the gains are those of the float64 map.
+\* t.runs[i] = [dt, real, lin, comp, dev] with residuals relative to max|a|, x 1e6
+JudgeDtype(t) ==
+    LET bad(r) == LET tol == IF r.dt = "float32" THEN F32Tol ELSE Tol
+                  IN  IF ~r.real THEN "C12_RealValuedSameShape"
+                      ELSE IF r.lin > tol THEN "C12_LinearDiagonal"
+                      ELSE IF r.comp > tol THEN "C12_HighpassIsComplement"
+                      ELSE IF r.dev > tol THEN "C12_GainIndependentOfInputDtype"
+                      ELSE "none"
+        fails == {i \in DOMAIN t.runs : bad(t.runs[i]) # "none"}
+    IN  IF fails = {} THEN V(TRUE, "none", <<>>)
+        ELSE LET i == CHOOSE x \in fails : \A y \in fails : x <= y
+             IN  V(FALSE, bad(t.runs[i]), <<i>>)
+
+Judge(t) == IF t.kind = "filt" THEN JudgeFilt(t) ELSE IF t.kind = "dtype" THEN JudgeDtype(t) ELSE JudgeRes(t)
 
 TraceInit == tid \in 1 .. Len(Traces) /\ verdict = V(TRUE, "pending", <<>>)
 TraceNext == verdict.clause = "pending" /\ verdict' = Judge(Traces[tid]) /\ UNCHANGED tid
